@@ -69,6 +69,22 @@ namespace nmtools::meta
                     using result_t = append_type_t<init_t,ct<at(reversed,index+1)>>;
                     return as_value_v<result_t>;
                 }, as_value_v<init_type>);
+            } else if constexpr (is_tuple_v<indices_t> && is_clipped_index_array_v<indices_t>) {
+                // tuple of clipped integers with different bounds: every position of the reversed array
+                // must be able to hold every element, use the largest bound (not the common type of the elements)
+                constexpr auto max_values = to_value_v<indices_t>;
+                constexpr auto N = len_v<indices_t>;
+                constexpr auto max_value = [&](){
+                    size_t m = 0;
+                    for (size_t i=0; i<(size_t)N; i++) {
+                        if ((size_t)at(max_values,i) > m) {
+                            m = (size_t)at(max_values,i);
+                        }
+                    }
+                    return m;
+                }();
+                using type = nmtools_array<clipped_size_t<max_value>,N>;
+                return as_value_v<type>;
             } else if constexpr (is_index_array_v<indices_t>) {
                 // may be array or tuple of (runtime) index
                 // some fn allow tuple of runtime index
